@@ -343,6 +343,8 @@ def parse_module(text):
             m.globals[name] = {"ty": ty, "init": rest2 if rest2 else None, "const": mk.group(1) == "constant",
                                "external": " external " in " " + mg.group(2) + " " and not rest2}
             continue
+        if s.startswith("declare") and re.search(r"@llvm\.experimental\.noalias", s):
+            continue
         if s.startswith("declare") or s.startswith("define"):
             is_def = s.startswith("define")
             body = strip_attrs(re.sub(r"^(declare|define)\s+", "", s))
@@ -501,8 +503,22 @@ class Emitter:
         if const_off:
             terms.append("(int64_t)%d" % const_off)
         if terms:
-            e = "(%s + (%s))" % (expr, " + ".join(terms))
+            if NULL_GEP and not const_off:
+                # LLVM allows a zero offset from a null pointer (empty std::vector); C pointer arithmetic on NULL is flagged by CBMC
+                e = "VGEP(%s, %s)" % (expr, " + ".join(terms))
+            else:
+                e = "(%s + (%s))" % (expr, " + ".join(terms))
         return e
+
+    def has_pointer(self, ty, depth=0):
+        r = self.m.resolve(ty)
+        if isinstance(r, (PtrTy, FnTy)):
+            return True
+        if isinstance(r, ArrTy):
+            return self.has_pointer(r.el, depth + 1)
+        if isinstance(r, StructTy) and depth < 8:
+            return any(self.has_pointer(f, depth + 1) for f in r.fields)
+        return False
 
     # --- globals
     def const_bytes(self, ty, init):
@@ -619,6 +635,10 @@ class Emitter:
                 continue
             b = self.const_bytes(g["ty"], g["init"])
             q = "static const" if g["const"] and b is not None else "static"
+            if b is not None and not any(b) and size % 8 == 0 and self.has_pointer(g["ty"]):
+                # zero-initialised object that will hold addresses: pointer-typed storage keeps them precise in CBMC
+                self.out.append("static uint8_t *%s[%d];" % (self.gname(name), size // 8))
+                continue
             if b is None:
                 words = self.const_words(g["ty"], g["init"])
                 if words is not None:
@@ -734,8 +754,8 @@ class Emitter:
             moves.append((dst, ty, src))
         if not moves:
             return
-        if len(moves) > 16:
-            raise Unsupported("more than 16 phis on one edge")
+        if len(moves) > 160:
+            raise Unsupported("more than 160 phis on one edge")
         def tmp(k, ty, sfx):
             return ("phip_t%d%s" if ctype(self.m, ty).endswith("*") else "phi_t%d%s") % (k, sfx)
         for sfx in self.sfx:
@@ -882,7 +902,11 @@ class Emitter:
             for sfx in self.sfx:
                 # word-granular backing store: CBMC keeps small arrays field-sensitive per element, so an aligned
                 # pointer/word store hits exactly one element and can be read back precisely (vtable pointers!)
-                allocas.append("uint64_t a_%s%s[%d] __attribute__((aligned(16)));" % (cid(dst), sfx, (size + 7) // 8))
+                if self.has_pointer(ty):
+                    allocas.append("uint64_t a_%s%s[%d] __attribute__((aligned(16)));" % (cid(dst), sfx, (size + 7) // 8))
+                else:
+                    # plain data objects stay byte arrays: byte-granular fields (counters, flags) read back exactly
+                    allocas.append("uint8_t a_%s%s[%d] __attribute__((aligned(16)));" % (cid(dst), sfx, size))
                 decls["v_" + cid(dst) + sfx] = "uint8_t *"
                 body.append("v_%s%s = (uint8_t *)a_%s%s;" % (cid(dst), sfx, cid(dst), sfx))
             return
@@ -968,6 +992,8 @@ class Emitter:
 
     def emit_call(self, rhs, dst, body, decls, setv):
         m = self.m
+        if "@llvm.experimental.noalias" in rhs:
+            return
         r2 = strip_attrs(rhs[len("call"):])
         rty, rest = parse_type_prefix(r2)
         if isinstance(rty, FnTy):
@@ -991,6 +1017,8 @@ class Emitter:
                 body.append(call + ";")
             return
         callee = mm.group(2).strip('"')
+        if callee.startswith("llvm.experimental.noalias") or callee.startswith("llvm.dbg"):
+            return
         args = [self.typed_operand(a, None) if False else a for a in split_top(mm.group(4))]
         targs = []
         for a in args:
@@ -1100,6 +1128,7 @@ LIBC_MAP = {
     "memcpy": lambda em, a, sfx: "(uint8_t *)memcpy(%s, %s, (size_t)%s)" % (a[0], a[1], a[2]),
     "memmove": lambda em, a, sfx: "(uint8_t *)memmove(%s, %s, (size_t)%s)" % (a[0], a[1], a[2]),
     "memcmp": lambda em, a, sfx: "(uint32_t)memcmp(%s, %s, (size_t)%s)" % (a[0], a[1], a[2]),
+    "bcmp": lambda em, a, sfx: "(uint32_t)memcmp(%s, %s, (size_t)%s)" % (a[0], a[1], a[2]),
     "_Znwm": lambda em, a, sfx: "(uint8_t *)verif_new((size_t)%s)" % a[0],
     "_Znam": lambda em, a, sfx: "(uint8_t *)verif_new((size_t)%s)" % a[0],
     "_ZdlPv": lambda em, a, sfx: "verif_delete(%s)" % a[0],
@@ -1121,6 +1150,7 @@ PRELUDE = r"""/* generated by enc/llvm/ll2c.py -- byte-addressed translation of 
 #include <stdlib.h>
 #ifndef VERIF_IR_PRELUDE
 #define VERIF_IR_PRELUDE
+static inline uint8_t *VGEP(uint8_t *p, int64_t off) { return off ? p + off : p; }
 static inline uint8_t  VLD8(const uint8_t *p) { return *p; }
 static inline uint16_t VLD16(const uint8_t *p) { uint16_t v; memcpy(&v, p, 2); return v; }
 static inline uint32_t VLD32(const uint8_t *p) { uint32_t v; memcpy(&v, p, 4); return v; }
@@ -1155,17 +1185,22 @@ void verif_explicit_bzero(uint8_t *p, size_t n);
 void verif_unknown_function(void);
 uint8_t *verif_new(size_t n);
 void verif_delete(uint8_t *p);
-static uint64_t phi_t0, phi_t1, phi_t2, phi_t3, phi_t4, phi_t5, phi_t6, phi_t7, phi_t8, phi_t9, phi_t10, phi_t11, phi_t12, phi_t13, phi_t14, phi_t15;
-static uint8_t *phip_t0, *phip_t1, *phip_t2, *phip_t3, *phip_t4, *phip_t5, *phip_t6, *phip_t7, *phip_t8, *phip_t9, *phip_t10, *phip_t11, *phip_t12, *phip_t13, *phip_t14, *phip_t15;
-static uint64_t phi_t0_a, phi_t1_a, phi_t2_a, phi_t3_a, phi_t4_a, phi_t5_a, phi_t6_a, phi_t7_a, phi_t8_a, phi_t9_a, phi_t10_a, phi_t11_a, phi_t12_a, phi_t13_a, phi_t14_a, phi_t15_a;
-static uint8_t *phip_t0_a, *phip_t1_a, *phip_t2_a, *phip_t3_a, *phip_t4_a, *phip_t5_a, *phip_t6_a, *phip_t7_a, *phip_t8_a, *phip_t9_a, *phip_t10_a, *phip_t11_a, *phip_t12_a, *phip_t13_a, *phip_t14_a, *phip_t15_a;
-static uint64_t phi_t0_b, phi_t1_b, phi_t2_b, phi_t3_b, phi_t4_b, phi_t5_b, phi_t6_b, phi_t7_b, phi_t8_b, phi_t9_b, phi_t10_b, phi_t11_b, phi_t12_b, phi_t13_b, phi_t14_b, phi_t15_b;
-static uint8_t *phip_t0_b, *phip_t1_b, *phip_t2_b, *phip_t3_b, *phip_t4_b, *phip_t5_b, *phip_t6_b, *phip_t7_b, *phip_t8_b, *phip_t9_b, *phip_t10_b, *phip_t11_b, *phip_t12_b, *phip_t13_b, *phip_t14_b, *phip_t15_b;
+static uint64_t phi_t0, phi_t1, phi_t2, phi_t3, phi_t4, phi_t5, phi_t6, phi_t7, phi_t8, phi_t9, phi_t10, phi_t11, phi_t12, phi_t13, phi_t14, phi_t15, phi_t16, phi_t17, phi_t18, phi_t19, phi_t20, phi_t21, phi_t22, phi_t23, phi_t24, phi_t25, phi_t26, phi_t27, phi_t28, phi_t29, phi_t30, phi_t31, phi_t32, phi_t33, phi_t34, phi_t35, phi_t36, phi_t37, phi_t38, phi_t39, phi_t40, phi_t41, phi_t42, phi_t43, phi_t44, phi_t45, phi_t46, phi_t47, phi_t48, phi_t49, phi_t50, phi_t51, phi_t52, phi_t53, phi_t54, phi_t55, phi_t56, phi_t57, phi_t58, phi_t59, phi_t60, phi_t61, phi_t62, phi_t63, phi_t64, phi_t65, phi_t66, phi_t67, phi_t68, phi_t69, phi_t70, phi_t71, phi_t72, phi_t73, phi_t74, phi_t75, phi_t76, phi_t77, phi_t78, phi_t79, phi_t80, phi_t81, phi_t82, phi_t83, phi_t84, phi_t85, phi_t86, phi_t87, phi_t88, phi_t89, phi_t90, phi_t91, phi_t92, phi_t93, phi_t94, phi_t95, phi_t96, phi_t97, phi_t98, phi_t99, phi_t100, phi_t101, phi_t102, phi_t103, phi_t104, phi_t105, phi_t106, phi_t107, phi_t108, phi_t109, phi_t110, phi_t111, phi_t112, phi_t113, phi_t114, phi_t115, phi_t116, phi_t117, phi_t118, phi_t119, phi_t120, phi_t121, phi_t122, phi_t123, phi_t124, phi_t125, phi_t126, phi_t127, phi_t128, phi_t129, phi_t130, phi_t131, phi_t132, phi_t133, phi_t134, phi_t135, phi_t136, phi_t137, phi_t138, phi_t139, phi_t140, phi_t141, phi_t142, phi_t143, phi_t144, phi_t145, phi_t146, phi_t147, phi_t148, phi_t149, phi_t150, phi_t151, phi_t152, phi_t153, phi_t154, phi_t155, phi_t156, phi_t157, phi_t158, phi_t159;
+static uint8_t *phip_t0, *phip_t1, *phip_t2, *phip_t3, *phip_t4, *phip_t5, *phip_t6, *phip_t7, *phip_t8, *phip_t9, *phip_t10, *phip_t11, *phip_t12, *phip_t13, *phip_t14, *phip_t15, *phip_t16, *phip_t17, *phip_t18, *phip_t19, *phip_t20, *phip_t21, *phip_t22, *phip_t23, *phip_t24, *phip_t25, *phip_t26, *phip_t27, *phip_t28, *phip_t29, *phip_t30, *phip_t31, *phip_t32, *phip_t33, *phip_t34, *phip_t35, *phip_t36, *phip_t37, *phip_t38, *phip_t39, *phip_t40, *phip_t41, *phip_t42, *phip_t43, *phip_t44, *phip_t45, *phip_t46, *phip_t47, *phip_t48, *phip_t49, *phip_t50, *phip_t51, *phip_t52, *phip_t53, *phip_t54, *phip_t55, *phip_t56, *phip_t57, *phip_t58, *phip_t59, *phip_t60, *phip_t61, *phip_t62, *phip_t63, *phip_t64, *phip_t65, *phip_t66, *phip_t67, *phip_t68, *phip_t69, *phip_t70, *phip_t71, *phip_t72, *phip_t73, *phip_t74, *phip_t75, *phip_t76, *phip_t77, *phip_t78, *phip_t79, *phip_t80, *phip_t81, *phip_t82, *phip_t83, *phip_t84, *phip_t85, *phip_t86, *phip_t87, *phip_t88, *phip_t89, *phip_t90, *phip_t91, *phip_t92, *phip_t93, *phip_t94, *phip_t95, *phip_t96, *phip_t97, *phip_t98, *phip_t99, *phip_t100, *phip_t101, *phip_t102, *phip_t103, *phip_t104, *phip_t105, *phip_t106, *phip_t107, *phip_t108, *phip_t109, *phip_t110, *phip_t111, *phip_t112, *phip_t113, *phip_t114, *phip_t115, *phip_t116, *phip_t117, *phip_t118, *phip_t119, *phip_t120, *phip_t121, *phip_t122, *phip_t123, *phip_t124, *phip_t125, *phip_t126, *phip_t127, *phip_t128, *phip_t129, *phip_t130, *phip_t131, *phip_t132, *phip_t133, *phip_t134, *phip_t135, *phip_t136, *phip_t137, *phip_t138, *phip_t139, *phip_t140, *phip_t141, *phip_t142, *phip_t143, *phip_t144, *phip_t145, *phip_t146, *phip_t147, *phip_t148, *phip_t149, *phip_t150, *phip_t151, *phip_t152, *phip_t153, *phip_t154, *phip_t155, *phip_t156, *phip_t157, *phip_t158, *phip_t159;
+static uint64_t phi_t0_a, phi_t1_a, phi_t2_a, phi_t3_a, phi_t4_a, phi_t5_a, phi_t6_a, phi_t7_a, phi_t8_a, phi_t9_a, phi_t10_a, phi_t11_a, phi_t12_a, phi_t13_a, phi_t14_a, phi_t15_a, phi_t16_a, phi_t17_a, phi_t18_a, phi_t19_a, phi_t20_a, phi_t21_a, phi_t22_a, phi_t23_a, phi_t24_a, phi_t25_a, phi_t26_a, phi_t27_a, phi_t28_a, phi_t29_a, phi_t30_a, phi_t31_a, phi_t32_a, phi_t33_a, phi_t34_a, phi_t35_a, phi_t36_a, phi_t37_a, phi_t38_a, phi_t39_a, phi_t40_a, phi_t41_a, phi_t42_a, phi_t43_a, phi_t44_a, phi_t45_a, phi_t46_a, phi_t47_a, phi_t48_a, phi_t49_a, phi_t50_a, phi_t51_a, phi_t52_a, phi_t53_a, phi_t54_a, phi_t55_a, phi_t56_a, phi_t57_a, phi_t58_a, phi_t59_a, phi_t60_a, phi_t61_a, phi_t62_a, phi_t63_a, phi_t64_a, phi_t65_a, phi_t66_a, phi_t67_a, phi_t68_a, phi_t69_a, phi_t70_a, phi_t71_a, phi_t72_a, phi_t73_a, phi_t74_a, phi_t75_a, phi_t76_a, phi_t77_a, phi_t78_a, phi_t79_a, phi_t80_a, phi_t81_a, phi_t82_a, phi_t83_a, phi_t84_a, phi_t85_a, phi_t86_a, phi_t87_a, phi_t88_a, phi_t89_a, phi_t90_a, phi_t91_a, phi_t92_a, phi_t93_a, phi_t94_a, phi_t95_a, phi_t96_a, phi_t97_a, phi_t98_a, phi_t99_a, phi_t100_a, phi_t101_a, phi_t102_a, phi_t103_a, phi_t104_a, phi_t105_a, phi_t106_a, phi_t107_a, phi_t108_a, phi_t109_a, phi_t110_a, phi_t111_a, phi_t112_a, phi_t113_a, phi_t114_a, phi_t115_a, phi_t116_a, phi_t117_a, phi_t118_a, phi_t119_a, phi_t120_a, phi_t121_a, phi_t122_a, phi_t123_a, phi_t124_a, phi_t125_a, phi_t126_a, phi_t127_a, phi_t128_a, phi_t129_a, phi_t130_a, phi_t131_a, phi_t132_a, phi_t133_a, phi_t134_a, phi_t135_a, phi_t136_a, phi_t137_a, phi_t138_a, phi_t139_a, phi_t140_a, phi_t141_a, phi_t142_a, phi_t143_a, phi_t144_a, phi_t145_a, phi_t146_a, phi_t147_a, phi_t148_a, phi_t149_a, phi_t150_a, phi_t151_a, phi_t152_a, phi_t153_a, phi_t154_a, phi_t155_a, phi_t156_a, phi_t157_a, phi_t158_a, phi_t159_a;
+static uint8_t *phip_t0_a, *phip_t1_a, *phip_t2_a, *phip_t3_a, *phip_t4_a, *phip_t5_a, *phip_t6_a, *phip_t7_a, *phip_t8_a, *phip_t9_a, *phip_t10_a, *phip_t11_a, *phip_t12_a, *phip_t13_a, *phip_t14_a, *phip_t15_a, *phip_t16_a, *phip_t17_a, *phip_t18_a, *phip_t19_a, *phip_t20_a, *phip_t21_a, *phip_t22_a, *phip_t23_a, *phip_t24_a, *phip_t25_a, *phip_t26_a, *phip_t27_a, *phip_t28_a, *phip_t29_a, *phip_t30_a, *phip_t31_a, *phip_t32_a, *phip_t33_a, *phip_t34_a, *phip_t35_a, *phip_t36_a, *phip_t37_a, *phip_t38_a, *phip_t39_a, *phip_t40_a, *phip_t41_a, *phip_t42_a, *phip_t43_a, *phip_t44_a, *phip_t45_a, *phip_t46_a, *phip_t47_a, *phip_t48_a, *phip_t49_a, *phip_t50_a, *phip_t51_a, *phip_t52_a, *phip_t53_a, *phip_t54_a, *phip_t55_a, *phip_t56_a, *phip_t57_a, *phip_t58_a, *phip_t59_a, *phip_t60_a, *phip_t61_a, *phip_t62_a, *phip_t63_a, *phip_t64_a, *phip_t65_a, *phip_t66_a, *phip_t67_a, *phip_t68_a, *phip_t69_a, *phip_t70_a, *phip_t71_a, *phip_t72_a, *phip_t73_a, *phip_t74_a, *phip_t75_a, *phip_t76_a, *phip_t77_a, *phip_t78_a, *phip_t79_a, *phip_t80_a, *phip_t81_a, *phip_t82_a, *phip_t83_a, *phip_t84_a, *phip_t85_a, *phip_t86_a, *phip_t87_a, *phip_t88_a, *phip_t89_a, *phip_t90_a, *phip_t91_a, *phip_t92_a, *phip_t93_a, *phip_t94_a, *phip_t95_a, *phip_t96_a, *phip_t97_a, *phip_t98_a, *phip_t99_a, *phip_t100_a, *phip_t101_a, *phip_t102_a, *phip_t103_a, *phip_t104_a, *phip_t105_a, *phip_t106_a, *phip_t107_a, *phip_t108_a, *phip_t109_a, *phip_t110_a, *phip_t111_a, *phip_t112_a, *phip_t113_a, *phip_t114_a, *phip_t115_a, *phip_t116_a, *phip_t117_a, *phip_t118_a, *phip_t119_a, *phip_t120_a, *phip_t121_a, *phip_t122_a, *phip_t123_a, *phip_t124_a, *phip_t125_a, *phip_t126_a, *phip_t127_a, *phip_t128_a, *phip_t129_a, *phip_t130_a, *phip_t131_a, *phip_t132_a, *phip_t133_a, *phip_t134_a, *phip_t135_a, *phip_t136_a, *phip_t137_a, *phip_t138_a, *phip_t139_a, *phip_t140_a, *phip_t141_a, *phip_t142_a, *phip_t143_a, *phip_t144_a, *phip_t145_a, *phip_t146_a, *phip_t147_a, *phip_t148_a, *phip_t149_a, *phip_t150_a, *phip_t151_a, *phip_t152_a, *phip_t153_a, *phip_t154_a, *phip_t155_a, *phip_t156_a, *phip_t157_a, *phip_t158_a, *phip_t159_a;
+static uint64_t phi_t0_b, phi_t1_b, phi_t2_b, phi_t3_b, phi_t4_b, phi_t5_b, phi_t6_b, phi_t7_b, phi_t8_b, phi_t9_b, phi_t10_b, phi_t11_b, phi_t12_b, phi_t13_b, phi_t14_b, phi_t15_b, phi_t16_b, phi_t17_b, phi_t18_b, phi_t19_b, phi_t20_b, phi_t21_b, phi_t22_b, phi_t23_b, phi_t24_b, phi_t25_b, phi_t26_b, phi_t27_b, phi_t28_b, phi_t29_b, phi_t30_b, phi_t31_b, phi_t32_b, phi_t33_b, phi_t34_b, phi_t35_b, phi_t36_b, phi_t37_b, phi_t38_b, phi_t39_b, phi_t40_b, phi_t41_b, phi_t42_b, phi_t43_b, phi_t44_b, phi_t45_b, phi_t46_b, phi_t47_b, phi_t48_b, phi_t49_b, phi_t50_b, phi_t51_b, phi_t52_b, phi_t53_b, phi_t54_b, phi_t55_b, phi_t56_b, phi_t57_b, phi_t58_b, phi_t59_b, phi_t60_b, phi_t61_b, phi_t62_b, phi_t63_b, phi_t64_b, phi_t65_b, phi_t66_b, phi_t67_b, phi_t68_b, phi_t69_b, phi_t70_b, phi_t71_b, phi_t72_b, phi_t73_b, phi_t74_b, phi_t75_b, phi_t76_b, phi_t77_b, phi_t78_b, phi_t79_b, phi_t80_b, phi_t81_b, phi_t82_b, phi_t83_b, phi_t84_b, phi_t85_b, phi_t86_b, phi_t87_b, phi_t88_b, phi_t89_b, phi_t90_b, phi_t91_b, phi_t92_b, phi_t93_b, phi_t94_b, phi_t95_b, phi_t96_b, phi_t97_b, phi_t98_b, phi_t99_b, phi_t100_b, phi_t101_b, phi_t102_b, phi_t103_b, phi_t104_b, phi_t105_b, phi_t106_b, phi_t107_b, phi_t108_b, phi_t109_b, phi_t110_b, phi_t111_b, phi_t112_b, phi_t113_b, phi_t114_b, phi_t115_b, phi_t116_b, phi_t117_b, phi_t118_b, phi_t119_b, phi_t120_b, phi_t121_b, phi_t122_b, phi_t123_b, phi_t124_b, phi_t125_b, phi_t126_b, phi_t127_b, phi_t128_b, phi_t129_b, phi_t130_b, phi_t131_b, phi_t132_b, phi_t133_b, phi_t134_b, phi_t135_b, phi_t136_b, phi_t137_b, phi_t138_b, phi_t139_b, phi_t140_b, phi_t141_b, phi_t142_b, phi_t143_b, phi_t144_b, phi_t145_b, phi_t146_b, phi_t147_b, phi_t148_b, phi_t149_b, phi_t150_b, phi_t151_b, phi_t152_b, phi_t153_b, phi_t154_b, phi_t155_b, phi_t156_b, phi_t157_b, phi_t158_b, phi_t159_b;
+static uint8_t *phip_t0_b, *phip_t1_b, *phip_t2_b, *phip_t3_b, *phip_t4_b, *phip_t5_b, *phip_t6_b, *phip_t7_b, *phip_t8_b, *phip_t9_b, *phip_t10_b, *phip_t11_b, *phip_t12_b, *phip_t13_b, *phip_t14_b, *phip_t15_b, *phip_t16_b, *phip_t17_b, *phip_t18_b, *phip_t19_b, *phip_t20_b, *phip_t21_b, *phip_t22_b, *phip_t23_b, *phip_t24_b, *phip_t25_b, *phip_t26_b, *phip_t27_b, *phip_t28_b, *phip_t29_b, *phip_t30_b, *phip_t31_b, *phip_t32_b, *phip_t33_b, *phip_t34_b, *phip_t35_b, *phip_t36_b, *phip_t37_b, *phip_t38_b, *phip_t39_b, *phip_t40_b, *phip_t41_b, *phip_t42_b, *phip_t43_b, *phip_t44_b, *phip_t45_b, *phip_t46_b, *phip_t47_b, *phip_t48_b, *phip_t49_b, *phip_t50_b, *phip_t51_b, *phip_t52_b, *phip_t53_b, *phip_t54_b, *phip_t55_b, *phip_t56_b, *phip_t57_b, *phip_t58_b, *phip_t59_b, *phip_t60_b, *phip_t61_b, *phip_t62_b, *phip_t63_b, *phip_t64_b, *phip_t65_b, *phip_t66_b, *phip_t67_b, *phip_t68_b, *phip_t69_b, *phip_t70_b, *phip_t71_b, *phip_t72_b, *phip_t73_b, *phip_t74_b, *phip_t75_b, *phip_t76_b, *phip_t77_b, *phip_t78_b, *phip_t79_b, *phip_t80_b, *phip_t81_b, *phip_t82_b, *phip_t83_b, *phip_t84_b, *phip_t85_b, *phip_t86_b, *phip_t87_b, *phip_t88_b, *phip_t89_b, *phip_t90_b, *phip_t91_b, *phip_t92_b, *phip_t93_b, *phip_t94_b, *phip_t95_b, *phip_t96_b, *phip_t97_b, *phip_t98_b, *phip_t99_b, *phip_t100_b, *phip_t101_b, *phip_t102_b, *phip_t103_b, *phip_t104_b, *phip_t105_b, *phip_t106_b, *phip_t107_b, *phip_t108_b, *phip_t109_b, *phip_t110_b, *phip_t111_b, *phip_t112_b, *phip_t113_b, *phip_t114_b, *phip_t115_b, *phip_t116_b, *phip_t117_b, *phip_t118_b, *phip_t119_b, *phip_t120_b, *phip_t121_b, *phip_t122_b, *phip_t123_b, *phip_t124_b, *phip_t125_b, *phip_t126_b, *phip_t127_b, *phip_t128_b, *phip_t129_b, *phip_t130_b, *phip_t131_b, *phip_t132_b, *phip_t133_b, *phip_t134_b, *phip_t135_b, *phip_t136_b, *phip_t137_b, *phip_t138_b, *phip_t139_b, *phip_t140_b, *phip_t141_b, *phip_t142_b, *phip_t143_b, *phip_t144_b, *phip_t145_b, *phip_t146_b, *phip_t147_b, *phip_t148_b, *phip_t149_b, *phip_t150_b, *phip_t151_b, *phip_t152_b, *phip_t153_b, *phip_t154_b, *phip_t155_b, *phip_t156_b, *phip_t157_b, *phip_t158_b, *phip_t159_b;
 #endif
 """
 
 
-def translate(text, prefix="ir_", pair=False, extern_prefix=""):
+NULL_GEP = False
+
+
+def translate(text, prefix="ir_", pair=False, extern_prefix="", null_gep=False):
+    global NULL_GEP
+    NULL_GEP = null_gep
     mod = parse_module(text)
     em = Emitter(mod, prefix=prefix, pair=pair, extern_prefix=extern_prefix)
     text = em.emit()
